@@ -3,7 +3,7 @@ SPECIFICATION Spec
 CONSTANTS
   Real = TRUE
   CharSigned = FALSE
-  Families = {"chain", "flit", "fround", "binsame", "binmix", "fbin", "un", "cast", "condfew", "unev", "nest", "num", "leaf", "addr"}
+  Families = {"casect", "chain", "flit", "fround", "binsame", "binmix", "fbin", "un", "cast", "condfew", "unev", "nest", "num", "leaf", "addr"}
   Level = 1
   Dev_LogicalReturnsOperand = FALSE
   Dev_BoolCastTruncates = FALSE
